@@ -276,8 +276,14 @@ def _iterates_set(prog, e, w=None):
        the loop expression or, when the loop sits in a helper that receives the collection as a generic iterator, from the
        creation of the local collection itself"""
     for (kind, hid, iv, node) in reversed(e.loops):
+        # look through lazy adaptors (filter / map / enumerate) to the collection that is walked
+        while isinstance(iv, tuple) and iv and iv[0] in ('mapped', 'filtered', 'enum') and len(iv) > 1:
+            iv = iv[1]
         if iv is not None and iv[0] == 'local':
-            ty = prog.ty(node['iter']) if node.get('k') == 'For' else (prog.ty(node['args'][0]) if node.get('args') else '')
+            try:
+                ty = prog.ty(node['iter']) if node.get('k') == 'For' else (prog.ty(node['args'][0]) if node.get('args') else '')
+            except Exception:
+                ty = ''
             if _is_set_ty(ty):
                 return True
             if w is not None:
